@@ -310,6 +310,8 @@ def normalize(prg: Iterable[AST]) -> list[AST]:
      - unpooling
     """
     new_prg: list[AST] = []
+    # pools first: converting or splitting a term that contains a pool would multiply it
+    prg = [unpooled for stm in prg for unpooled in stm.unpool()]
     prg = replace_old_aggregates(prg)
     prg = remove_unecessary_bounds(prg)
     for stm in prg:
